@@ -451,3 +451,167 @@ Proof.
   intros W G. unfold run_typeDefFirst. apply (tdf_loop_partial f W).
   intros d Hd. split; auto. eapply all_nodes_pre; eauto. apply pre_self.
 Qed.
+
+(* --- sortSlice --- *)
+Lemma sortSlice_partial f :
+  all_nodes_sat g_lit_returns_value f -> forall s, run_sortSlice f <> Panic s.
+Proof.
+  intros G. apply run_expr_total. intros e He s. unfold sortSlice_visit.
+  destruct (negb (is_tag TCall e)); [discriminate|].
+  destruct (kids e) as [|fn [|a0 [|a1 [|? ?]]]] eqn:Ke; try discriminate.
+  destruct (negb _); [discriminate|].
+  assert (H1 : In a1 (all_nodes f)) by (eapply all_nodes_kid; eauto; rewrite Ke; simpl; auto).
+  pose proof (sat_of _ _ _ G H1) as G1.
+  destruct a1 as [t p1 s1 x1 y1 f1 k1]. destruct t; try discriminate.
+  destruct k1 as [|ft [|body [|? ?]]]; try discriminate.
+  simpl in G1.
+  destruct (negb (f_pure _)); [discriminate|].
+  destruct (param_idents ft) as [[ivar jvar]|]; [|discriminate].
+  destruct (kids body) as [|ret [|? ?]]; try discriminate.
+  destruct (is_tag TReturn ret); simpl; [|discriminate].
+  destruct (kids ret) as [|r0 ?]; [discriminate G1|].
+  destruct (unparen r0) as [t ? ? ? ? ? kc]; destruct t; try discriminate.
+  destruct kc as [|x [|y [|? ?]]]; try discriminate.
+  destruct (negb (f_pure _)); [discriminate|]. destruct (negb (is_cmp_op a)); discriminate.
+Qed.
+
+(* --- evalOrder --- *)
+Lemma evalOrder_partial f :
+  all_nodes_sat g_return_calls_methods f -> forall s, run_evalOrder f <> Panic s.
+Proof.
+  intros G. apply run_stmt_total. intros e He s. pose proof (sat_of _ _ _ G He) as Ge.
+  unfold evalOrder_visit. unfold g_return_calls_methods in Ge.
+  destruct (is_tag TReturn e); simpl; [|discriminate].
+  destruct (Nat.ltb _ 2); [discriminate|].
+  rewrite forallb_forall in Ge.
+  apply seq_o_no_panic. intros o Ho. apply in_map_iff in Ho as [id [<- Hid]].
+  destruct (is_tag TIdent id) eqn:Ti; [|discriminate].
+  apply seq_o_no_panic. intros o Ho. apply in_map_iff in Ho as [call [<- Hc]].
+  specialize (Ge call Hc). unfold eo_call.
+  destruct (negb (is_tag TCall call)); [discriminate|].
+  destruct (kids call) as [|fn ?]; [destruct (contains_node _ _); discriminate|].
+  destruct fn as [t ? ? ? ? ? kf]; destruct t; try (destruct (contains_node _ _); discriminate).
+  destruct kf as [|x [|sel [|? ?]]]; try (destruct (contains_node _ _); discriminate).
+  destruct (node_eqb x id) eqn:Ex; [|destruct (contains_node _ _); discriminate].
+  assert (Hex : existsb (fun id0 => is_tag TIdent id0 && node_eqb x id0) (kids e) = true).
+  { apply existsb_exists. exists id. rewrite Ti, Ex. auto. }
+  rewrite Hex in Ge. unfold recv_known in Ge. unfold has_ptr_recv.
+  destruct (f_sig (nfacts sel)) as [|np v rc o]; [destruct (contains_node _ _); discriminate|].
+  destruct rc; try discriminate Ge; destruct (contains_node _ _); discriminate.
+Qed.
+
+(* ================= C07: the cause of every warning is a node of the file ================= *)
+Definition cause_in_file (f : file) (w : warning) : Prop := In (w_cause w) (all_nodes f).
+
+Lemma cause_pos_valid f w : wf f = true -> cause_in_file f w -> In (w_pos w) (token_starts f).
+Proof. intros W H. unfold w_pos. apply wf_pos_of; auto. Qed.
+
+Ltac inw H := simpl in H; repeat (destruct H as [<-|H]; [simpl; auto|]); try contradiction.
+
+Lemma newDeref_cause f w : In w (warnings (run_newDeref f)) -> cause_in_file f w.
+Proof.
+  intros H. apply run_expr_warn in H as [e [He Hw]]. unfold cause_in_file. unfold newDeref_visit in Hw.
+  destruct e as [t p str a b ff ks]. destruct t; try contradiction.
+  destruct ks as [|x [|? ?]]; try contradiction.
+  destruct (negb (is_tag TCall x)); [contradiction|].
+  destruct (kids x) as [|fn args]; [contradiction|].
+  destruct (negb _); [contradiction|]. destruct args as [|a0 ?]; [contradiction|].
+  destruct (f_ty (nfacts a0)); simpl in Hw; try contradiction;
+    destruct (f_deflit (nfacts a0)); simpl in Hw; try contradiction; destruct Hw as [<-|[]]; exact He.
+Qed.
+
+Lemma flagName_cause_callee f w :
+  In w (warnings (run_flagName f)) -> cause_in_file f w /\ w_callee w = OPkgName "flag" /\ w_recog w = RObject "flag".
+Proof.
+  intros H. apply run_expr_warn in H as [e [He Hw]]. unfold cause_in_file. unfold flagName_visit in Hw.
+  destruct (negb (is_tag TCall e)); [contradiction|].
+  destruct (kids e) as [|fn args]; [contradiction|].
+  destruct fn as [t p str a b ff ks]; destruct t; try contradiction.
+  destruct ks as [|x [|sel [|? ?]]]; try contradiction.
+  destruct (negb (is_tag TIdent x)); [contradiction|].
+  destruct (obj_of x) eqn:Ox; try contradiction.
+  destruct (negb (String.eqb path "flag")) eqn:Ep; [contradiction|].
+  apply negb_false_iff, String.eqb_eq in Ep. subst path.
+  assert (K : forall a0, In w (check_flag_name e (Nd TSelector p str a b ff (NC x (NC sel NN))) a0) ->
+              In (w_cause w) (all_nodes f) /\ w_callee w = OPkgName "flag" /\ w_recog w = RObject "flag").
+  { intros a0. unfold check_flag_name. destruct (f_cst (nfacts a0)); [|contradiction].
+    destruct (_ || _); [|contradiction]. intros [<-|[]]. simpl. auto. }
+  destruct (mem (nstr sel) flag_names1).
+  - destruct (nth_error args 0); [eapply K; exact Hw|contradiction].
+  - destruct (mem (nstr sel) flag_names2); [|contradiction].
+    destruct (nth_error args 1); [eapply K; exact Hw|contradiction].
+Qed.
+
+Lemma filepathJoin_cause f w : In w (warnings (run_filepathJoin f)) -> cause_in_file f w.
+Proof.
+  intros H. apply run_expr_warn in H as [e [He Hw]]. unfold cause_in_file. unfold filepathJoin_visit in Hw.
+  destruct (negb (is_tag TCall e)); [contradiction|].
+  destruct (kids e) as [|fn args] eqn:Ke; [contradiction|].
+  destruct (negb _); [contradiction|]. simpl in Hw. apply in_flat_map in Hw as [arg [Ha Hw]].
+  destruct (_ && _); [|contradiction]. destruct Hw as [<-|[]]. simpl.
+  eapply all_nodes_kid; eauto. rewrite Ke. right. exact Ha.
+Qed.
+
+Lemma dupOption_cause f w : In w (warnings (run_dupOption f)) -> cause_in_file f w.
+Proof.
+  intros H. apply run_expr_warn in H as [e [He Hw]]. unfold cause_in_file. unfold dupOption_visit in Hw.
+  destruct (negb (is_tag TCall e)); [contradiction|].
+  destruct (kids e) as [|fn args] eqn:Ke; [contradiction|].
+  destruct args as [|a0 args]; [contradiction|].
+  destruct (N.eqb (na e) 1); [contradiction|].
+  destruct (f_sig (nfacts fn)) as [|np v rc opt]; [contradiction|]. destruct v; [|contradiction].
+  destruct (Nat.ltb _ _); [contradiction|].
+  remember (skipn (N.to_nat np - 1) (a0 :: args)) as vargs eqn:Sk.
+  assert (Hw' : In w (map (fun a => mkw "dupOption" a RNoSubject a true) (find_dups [] vargs))).
+  { destruct vargs; [contradiction|]. destruct (negb opt); [contradiction|]. exact Hw. }
+  clear Hw. apply in_map_iff in Hw' as [a [<- Ha]]. simpl.
+  assert (Hsub : forall seen l x, In x (find_dups seen l) -> In x l).
+  { intros seen l. revert seen. induction l as [|y r IH]; simpl; intros seen x Hx; [contradiction|].
+    destruct (existsb (node_eqb y) seen); [destruct Hx as [->|Hx]; eauto|eauto]. }
+  apply Hsub in Ha. rewrite Sk in Ha. apply skipn_In' in Ha.
+  eapply all_nodes_kid; eauto. rewrite Ke. right. exact Ha.
+Qed.
+
+(* C07: ZeroValueOf never puts a nil argument into the suggested expression *)
+Lemma newDeref_render_partial f w :
+  all_nodes_sat g_new_has_literal f -> In w (warnings (run_newDeref f)) -> w_render_ok w = true.
+Proof.
+  intros G H. apply run_expr_warn in H as [e [He Hw]]. unfold newDeref_visit in Hw.
+  destruct e as [t p str a b ff ks]. destruct t; try contradiction.
+  destruct ks as [|x [|? ?]]; try contradiction.
+  assert (Hx : In x (all_nodes f)) by (eapply all_nodes_kid; eauto; unfold kids; simpl; auto).
+  pose proof (sat_of _ _ _ G Hx) as Gx. unfold g_new_has_literal in Gx.
+  destruct (is_tag TCall x); simpl in Hw; [|contradiction].
+  destruct (kids x) as [|fn args]; [contradiction|].
+  destruct (is_tag TIdent fn && String.eqb (nstr fn) "new"); simpl in Hw; [|contradiction].
+  destruct args as [|a0 ?]; [contradiction|].
+  destruct (f_ty (nfacts a0)); simpl in Hw; try contradiction; try discriminate Gx;
+    destruct (f_deflit (nfacts a0)); simpl in Hw; try contradiction; destruct Hw as [<-|[]]; reflexivity.
+Qed.
+
+(* ================= C20: recognition by spelling is right when nothing shadows the name ================= *)
+Lemma newDeref_real_partial f w :
+  all_nodes_sat (g_no_namesake_bare "new") f -> In w (warnings (run_newDeref f)) -> is_real w = true.
+Proof.
+  intros G H. apply run_expr_warn in H as [e [He Hw]]. unfold newDeref_visit in Hw.
+  destruct e as [t p str a b ff ks]. destruct t; try contradiction.
+  destruct ks as [|x [|? ?]]; try contradiction.
+  assert (Hx : In x (all_nodes f)) by (eapply all_nodes_kid; eauto; unfold kids; simpl; auto).
+  destruct (is_tag TCall x); simpl in Hw; [|contradiction].
+  destruct (kids x) as [|fn args] eqn:Kx; [contradiction|].
+  assert (Hf : In fn (all_nodes f)) by (eapply all_nodes_kid; eauto; rewrite Kx; simpl; auto).
+  pose proof (sat_of _ _ _ G Hf) as Gf. unfold g_no_namesake_bare in Gf.
+  destruct (is_tag TIdent fn && String.eqb (nstr fn) "new"); simpl in Hw; [|contradiction].
+  destruct args as [|a0 ?]; [contradiction|].
+  destruct (f_ty (nfacts a0)); simpl in Hw; try contradiction;
+    destruct (f_deflit (nfacts a0)); simpl in Hw; try contradiction; destruct Hw as [<-|[]];
+    unfold is_real; simpl; rewrite Gf; reflexivity.
+Qed.
+
+
+Lemma flagName_real f w :
+  In w (warnings (run_flagName f)) -> w_callee w = OPkgName "flag" /\ is_real w = true.
+Proof.
+  intros H. destruct (flagName_cause_callee f w H) as [_ [Hc Hr]]. split; [exact Hc|].
+  unfold is_real. rewrite Hr, Hc. reflexivity.
+Qed.
